@@ -44,8 +44,8 @@ def run(tier, seed, replay=None):
                        "construction (most recently modified, not yet in the served list) with its header still the zero "
                        "placeholder + any body prefix, since Finalize writes the header last (Pk/Props/C12Idx.lean "
                        "crash_cut_newest_only: these are exactly reachable disks); (b) directly after a call that saved state, "
-                       "old and new state file both on disk; every restart is followed by one more acknowledged call, a clean "
-                       "shutdown and a second restart; answers that depend on converter output are not judged after a crash",
+                       "old and new state file both on disk; every restart is followed by a clean shutdown and a second restart, in every second experiment "
+                       "with one more acknowledged call in between; answers that depend on converter output are not judged after a crash",
                        "captures handed to ImportPcaps but not yet imported are outside the statement (import queue is memory-only: finding F19)"]
     binpath, blog = pk.go_build("mgr")
     if binpath is None:
@@ -91,7 +91,7 @@ def run(tier, seed, replay=None):
     rep.coverage.update({
         "distinct_nontrivial": len(nontriv),
         "rule": "scenarios as in C06 with `crashcheck K` ops inserted (K=0: copy of the data directory while all jobs are "
-                "parked; 0<K<100: additionally the index file under construction — most recently modified and not yet in the served list — gets its header zeroed and is cut; K=100: directly after a call that saved state, the state file it replaced is put back, i.e. a kill inside the state save; every restart is followed by one more acknowledged call, a clean shutdown and a second restart); evaluations = events; "
+                "parked; 0<K<100: additionally the index file under construction — most recently modified and not yet in the served list — gets its header zeroed and is cut; K=100: directly after a call that saved state, the state file it replaced is put back, i.e. a kill inside the state save; every restart is followed by a clean shutdown and a second restart, in every second experiment with one more acknowledged call in between); evaluations = events; "
                 "non-trivial = distinct crash disks with >= 2 index files or an unreadable file",
         "samples": [diffs[0]] if diffs else [{"note": "see crash_stage.event_mix for the number of restarts"}],
         "recovery_model_disks_compared": disks, "recovery_model_differences": len(diffs),
